@@ -42,7 +42,7 @@ def dispatch (j : Json) : R Json := do
   | "solve" | "checksat" | "checkaxes" => Einx.Driver.Solve.handle j
   | "shorthand" => Einx.Driver.Shorthand.handle j
   | "value_range" => Einx.Driver.Cse.handle j
-  | "cse_trees" | "cse_check" | "cse_enum" => Einx.Driver.CseTrees.handle j
+  | "cse_trees" | "cse_check" | "cse_enum" | "forest_sys" => Einx.Driver.CseTrees.handle j
   | "ir_run" | "validate" | "denote" | "norm_arith" => Einx.Driver.IR.handle j
   | "join_exprs" | "cse_replace" | "implicit_output" => Einx.Driver.Order.handle j
   | "adapt_check" | "split_kwargs" | "expr_to_axis" | "elementwise_shape" => Einx.Driver.Adapt.handle j
